@@ -575,7 +575,12 @@ Definition collapse_halfcell_to_base (n : N) (ks : kinds) (d_pe d_e d_ne : N) : 
     remove_dart_tx b2d_ne ;;;
     one_sew n ks d_pe b1b2d_ne ;;;
     one_sew n ks b0b2d_ne d_pe
-  else Ret tt.
+  else
+    x <- rdB 2 d_pe ;;
+    (if negb (x =? 0) then two_unsew n ks d_pe else Ret tt) ;;;
+    remove_dart_tx d_e ;;;
+    remove_dart_tx d_pe ;;;
+    remove_dart_tx d_ne.
 
 Definition collapse_edge_to_base (n : N) (ks : kinds) (b0l l b1l b0r r b1r : N) : prog N :=
   l_vid <- vertex_id_tx n l ;;
